@@ -22,6 +22,7 @@ Answer:  err:tls | err:matcher | err:addr |
     srv = <key>/<disabled><tls>/<listen>/<skeleton>/<redirect table>      key = s<i> | new
 -/
 import CaddyModel.C11.Spec
+import CaddyModel.C11.Caddyfile
 
 namespace CaddyModel.C11
 
@@ -291,7 +292,39 @@ def showOutcome (c : Config) (P : Params) (names : List Bytes) : Outcome → Str
   | .errAddr => "err:addr"
   | .ok r => canon c P names r
 
+def parseSite (s : String) : Option Site :=
+  match s.splitOn "." with
+  | [a, b, d] => do
+    let a ← nat? a
+    let b ← nat? b
+    let d ← nat? d
+    if a ≤ 2 ∧ d < 65536 ∧ ¬(b = 0 ∧ d = 0) then some ⟨a, b, d⟩ else none
+  | _ => none
+
+def cfHostOK (b : Bytes) : Bool :=
+  b.all fun x => (97 ≤ x && x ≤ 122) || (48 ≤ x && x ≤ 57) || x == 46 || x == 45 || x == 42
+
+def showCFServer (s : Server) : String :=
+  (match s.listen with | a :: _ => "p" ++ toString a.sp | [] => "p?") ++ "/" ++
+  showBit s.disabled ++ showBit s.disableRedir ++ showBit s.disableCerts ++ showBit s.ignoreLoaded ++ "/" ++
+  joinOr "," ((s.skip.foldr insertSorted []).map toString) ++ "/" ++
+  joinOr "," (((allHosts s).foldr insertSorted []).map toString) ++
+  (if s.routes.any (fun r => r.hms.isEmpty) then "*" else "")
+
+/-- `cf <hp> <sp> <opts> <names> <sites>`: the Caddyfile adapter's part (see Caddyfile.lean) -/
+def handleCF (hp sp opts names sites : String) : String :=
+  match nat? hp, nat? sp, bits? opts, list? ";" Hex.decode names, list? ";" parseSite sites with
+  | some hp, some sp, some [o1, o2, o3, o4], some names, some sites =>
+    if hp < 65536 ∧ sp < 65536 ∧ names.head? = some [] ∧ names.length ≤ 12 ∧ names.all cfHostOK ∧ nodupB names ∧
+       sites ≠ [] ∧ sites.length ≤ 8 ∧ sites.all (fun s => decide (s.name < names.length)) then
+      match adapt ⟨hp, sp, o1, o2, o3, o4, sites⟩ with
+      | none => "err"
+      | some c => "ok " ++ joinOr ";" (c.servers.map showCFServer)
+    else "bad-op"
+  | _, _, _, _, _ => "bad-op"
+
 def handle : List String → String
+  | ["cf", hp, sp, opts, names, sites] => handleCF hp sp opts names sites
   | ["cfg", k, hp, sp, names, servers, policies, loaded] =>
     match nat? k, nat? hp, nat? sp, list? ";" parseName names, list? ";" parseServer servers,
           list? ";" parsePolicy policies, bits? loaded with
